@@ -157,6 +157,17 @@ def run(tier):
             for gi, gen in enumerate(("retain_lines", "dense:80", "readable:1")):
                 for ri, rules in enumerate(([], ["'remove_spaces'"]) if tier == "quick" else ([], ["'remove_spaces'"], ["'remove_comments'", "'compute_expression'"])):
                     cases.append({"id": "%s_g%d_r%d" % (mid, gi, ri), "mode": "process", "src": src, "label": "multibyte-offsets", "generator": gen, "rules": rules})
+    # (a'') glue sites (Multibyte!GlueSites x GlueSeps): two tokens that only trivia keeps apart, under the rules that delete
+    #       trivia or rebuild the node, with the three generators: the output must parse again
+    glue = mb.tagged("GLUE")
+    if len(glue) < 100:
+        raise vlib.ToolError("MC_Multibyte emitted only %d glue texts" % len(glue))
+    glue_rules = ([], ["'remove_spaces'"], ["'remove_comments'"], ["'remove_comments'", "'remove_spaces'"], ["'remove_spaces'", "'remove_compound_assignment'"],
+                  ["'remove_compound_assignment'"], ["'compute_expression'", "'remove_spaces'"], ["'remove_spaces'", "'remove_types'"])
+    for gl in glue:
+        for gi, gen in enumerate(("retain_lines", "dense:80", "readable:80")):
+            for ri, rules in enumerate(glue_rules):
+                cases.append({"id": "gl%d_%d_g%d_r%d" % (gl["site"], gl["sep"], gi, ri), "mode": "process", "src": gl["src"], "label": "glue", "generator": gen, "rules": rules})
     # (b) whole pipeline
     npairs = 6000 if tier == "quick" else 90000
     for k in range(npairs):
